@@ -111,6 +111,8 @@ SHAPES = ("L", "T", "G")
 def shape_code(i, sh, op, a, b, exp):
     """Elk statements for one case in one shape; prints '<i> <shape> <inspect> <==expected> <hash==> <left operand afterwards>'"""
     v = "%s%d" % (sh.lower(), i)
+    if op == "cmp" and sh != "G":
+        return None         # the checker rejects `.inspect` on `Int <=> Int` (typed/literal operands); only the union shape compiles
     if sh == "L":
         x, y, decl = lit(a), lit(b), ""
     elif sh == "T":
@@ -174,7 +176,7 @@ def vm_stream(ctx, elk, model):
         progs.append((name, "".join(src)))
         members[name] = range(p0, p1)
     wd = os.path.join(ctx.workdir, "vm")
-    res = vlib.run_programs(elk, progs, wd, timeout=60)
+    res = vlib.run_programs(elk, progs, wd, timeout=240)
     got = {}         # (i, shape) -> (inspect, eq, hash) | ("CRASH", outcome, first line)
     rerun = []
     for name, (rc, out, cls) in res.items():
@@ -197,7 +199,7 @@ def vm_stream(ctx, elk, model):
                     singles.append(("s%d%s" % (i, sh), code))
     skipped = max(0, len(rerun) - budget)
     if singles:
-        res2 = vlib.run_programs(elk, singles, wd, timeout=30)
+        res2 = vlib.run_programs(elk, singles, wd, timeout=120)
         for name, (rc, out, cls) in res2.items():
             i, sh = int(name[1:-1]), name[-1]
             if cls == "ok":
@@ -208,7 +210,7 @@ def vm_stream(ctx, elk, model):
             else:
                 msg = next((x for x in out.splitlines() if "panic" in x or "error" in x.lower() or "FAIL" in x), out[:200])
                 got[(i, sh)] = ("CRASH", cls, msg.strip()[:160])
-    evals, distinct, dist, mism = 0, set(), {}, 0
+    evals, distinct, dist, mism, timeouts = 0, set(), {}, 0, 0
     samples = []
     for i, (op, a, b) in enumerate(cases):
         for sh in SHAPES:
@@ -224,6 +226,9 @@ def vm_stream(ctx, elk, model):
             if len(samples) < 3:
                 samples.append({"input": "%s %d %d shape=%s" % (op, a, b, sh), "observed": " ".join(g)})
             kind = None
+            if g[0] == "CRASH" and g[1] == "timeout":
+                timeouts += 1       # machine load, not a verdict
+                continue
             if g[0] == "CRASH":
                 kind = "crash-" + g[1]
             elif g[0] != expected[i]:
@@ -244,6 +249,8 @@ def vm_stream(ctx, elk, model):
                              oracle="inspect of the result must be the exact integer; result == literal and result.hash == literal.hash must be true; the left operand must be unchanged")
     if skipped:
         ctx.extra["c06.vm.failing_batches_not_isolated"] = skipped
+    if timeouts:
+        ctx.extra["c06.vm.timeouts_ignored"] = timeouts
     ctx.stream(stream, evals, len(distinct),
                "seeded operand pairs (boundary clusters, random 1-160 bit values, big operands with small results) x 21 "
                "operators x 3 program shapes run on `elk run` (30 cases per program); gating observables: inspect of the "
